@@ -18,6 +18,8 @@ inductive Spec02 where
   | burgers (Tmax nu : Rat) (u : Poly)
   | fisherKPP (d : Nat) (Tmax D r g : Rat) (u : Poly)
   | ouFPE (Tmax : Rat) (alpha mu sigma : List Rat) (u : Poly)
+  /-- the inherited `FPENonStatioLoss2D.equation` with a user drift (2 fields) and diffusion (2 × 2 fields) -/
+  | fpe (Tmax : Rat) (drift : List Poly) (diff : List (List Poly)) (u : Poly)
   | glv (Tmax c r : Rat) (a : List Rat) (uMain : Poly) (uOthers : List Poly)
   | massConservation (u : List Poly)
   | navierStokes (nu rho : Rat) (u : List Poly) (p : Poly)
@@ -27,6 +29,7 @@ def Spec02.name : Spec02 → String
   | .burgers .. => "burgers"
   | .fisherKPP .. => "fisher-kpp"
   | .ouFPE .. => "ou-fokker-planck"
+  | .fpe .. => "fokker-planck-2d"
   | .glv .. => "generalized-lotka-volterra"
   | .massConservation .. => "mass-conservation"
   | .navierStokes .. => "navier-stokes"
@@ -40,6 +43,7 @@ def documentedFields : Spec02 → Option (List Poly)
   | .burgers Tmax nu u => some [burgersDoc polyOps Tmax nu u]
   | .fisherKPP d Tmax D r g u => some [fisherDoc polyOps polyExt d Tmax D r g u]
   | .ouFPE Tmax alpha mu sigma u => some [ouDoc polyOps polyExt Tmax alpha mu sigma u]
+  | .fpe Tmax drift diff u => some [fpeDoc polyOps Tmax (comp drift) (fun i j => comp (diff.getD i []) j) u]
   | .glv .. => none
   | .massConservation u => some [massDoc polyOps (comp u)]
   | .navierStokes nu rho u p => some [nsDoc polyOps nu rho (comp u) p 0, nsDoc polyOps nu rho (comp u) p 1]
